@@ -69,6 +69,12 @@ def run(ctx):
             ctx.violation("an emitter crashed on some address: " + o[-600:], {"family": "jump", "kind": "crash", "pkg": pkg, "tail": o[-1500:]})
             continue
         all_evs += len(validate(ctx, out, pkg))
+    # the jump back from a trampoline as fixOriginFuncToTrampoline really lays it out behind the copied prologue: relocations of
+    # real functions (and of TLC-enumerated prologue streams), judged by Trace_Reloc's TailOk only (the rest is C03's business)
+    from checks import c03
+    rb = ctx.build_test("internal/patch", ["reloc"], name="reloc")
+    c03.reloc(ctx, rb, {"VERIF_SAMPLE": "2000" if q else "200000", "VERIF_NDIST": "1" if q else "2"}, "trampoline tails, driver binary", only=("V:tail-jump",))
+    c03.streams(ctx, rb, only=("V:tail-jump",))
     ctx.cov["distinct_nontrivial"] = all_evs
     ctx.cov["exhaustive"] = not q
     ctx.cov["rule"] = ("each 16-bit lane of the destination swept (stride %s) with the other lanes at boundary patterns, (from,to) "
